@@ -18,8 +18,11 @@ It stands for (python/experiment/model/…):
   a component identifier or a loop placeholder `(stage, name)` of some component `(stage, "<iteration>#name")`;
   every component reference in the arguments must be declared (`FlowIRUnknownReferenceInArguments`);
 * variables — `FlowIR.fill_in`/`interpolate`: every `%(x)s` mentioned by the component or, transitively, by the
-  value of a variable it mentions must be defined by the component or globally, without circular definitions
-  (`resolveVar` with fuel; the Python recursion is cut by its own loop detection/`RecursionError` handling);
+  value of a variable it mentions must be defined in the scope of the component (`defsOf`: its own variables, the
+  user's variables files for its stage and globally — `FlowIRExperimentConfiguration._patch_in_variable_files`,
+  `layer_many_variable_files` —, the active platform's and `default`'s variables for its stage and globally —
+  `FlowIRConcrete.get_component_variables`), without circular definitions (`resolveVar` with fuel; the Python
+  recursion is cut by its own loop detection/`RecursionError` handling);
 * acyclicity — `networkx.topological_sort` in `replicate` / `networkx.find_cycle` in
   `ComponentSpecification.checkDataReferences` (trusted) are represented by Kahn's algorithm with fuel.  The graph
   it runs on is the replica-propagation graph of `FlowIR.propagate_replicate`: one producer → consumer edge per
@@ -52,9 +55,25 @@ structure Comp where
   aggregate : Bool := false
   deriving Inhabited
 
+/-- one user variables file (`elaunch --variables` / `variable_files=[…]`): a `global` section and `stages`
+sections, each a list of definitions `(name, variables mentioned by the value)` -/
+structure UserVars where
+  globals : List (S × List S) := []
+  stages : List (Nat × List (S × List S)) := []
+  deriving Inhabited
+
 structure Doc where
   comps : List Comp
+  /-- `variables.default.global` -/
   globals : List (S × List S)
+  /-- `variables.default.stages`: `(stage index, definitions)` -/
+  stageVars : List (Nat × List (S × List S)) := []
+  /-- `variables.<active platform>.global` (empty when the active platform is `default`) -/
+  platGlobals : List (S × List S) := []
+  /-- `variables.<active platform>.stages` (empty when the active platform is `default`) -/
+  platStageVars : List (Nat × List (S × List S)) := []
+  /-- the user variables files in the order given (a later file overrides an earlier one) -/
+  userFiles : List UserVars := []
   deriving Inhabited
 
 inductive Err where
@@ -99,7 +118,24 @@ def resolveVar (defs : List (S × List S)) : Nat → S → Bool
     | none => false
     | some used => used.all (fun u => resolveVar defs fuel u)
 
-def defsOf (d : Doc) (c : Comp) : List (S × List S) := c.vars ++ d.globals
+/-- the definitions a list of stage sections holds for stage `s` -/
+def sectionOf (l : List (Nat × List (S × List S))) (s : Nat) : List (S × List S) :=
+  (l.filter (fun p => p.1 == s)).flatMap (·.2)
+
+/-- `layer_many_variable_files`: the `global` sections of the user's files, the last file first (it wins) -/
+def userGlobals (d : Doc) : List (S × List S) := d.userFiles.reverse.flatMap (·.globals)
+
+/-- … and their sections for stage `s` -/
+def userStage (d : Doc) (s : Nat) : List (S × List S) := d.userFiles.reverse.flatMap (fun f => sectionOf f.stages s)
+
+/-- The variable scope of a component, highest priority first (`lookup` takes the first definition):
+its own variables; what `_patch_in_variable_files` writes into the stage scope of every platform for ITS stage
+(the user's `stages[stage]` section over the user's `global` section); the active platform's variables for its
+stage, the platform's global variables; `default`'s variables for its stage, `default`'s global variables
+(`FlowIRConcrete.get_component_variables`).  No section of another stage is part of it. -/
+def defsOf (d : Doc) (c : Comp) : List (S × List S) :=
+  c.vars ++ userStage d c.stage ++ userGlobals d ++ sectionOf d.platStageVars c.stage ++ d.platGlobals ++
+  sectionOf d.stageVars c.stage ++ d.globals
 
 def varErrors (d : Doc) (c : Comp) : List Err :=
   (c.uses.filter (fun v => !resolveVar (defsOf d c) ((defsOf d c).length + 1) v)).map
